@@ -309,6 +309,10 @@ func (app *App) optimizeReplicaWithSmallestLag(
 		return err
 	}
 	replicaToOptimize := app.cluster.Get(hostnameToOptimize)
+	if replicaToOptimize == nil {
+		// e.g. a switchover to a host name that is not registered
+		return fmt.Errorf("host %s is not a registered node of the cluster", hostnameToOptimize)
+	}
 
 	err = app.optController.Enable(replicaToOptimize)
 	if err != nil {
